@@ -29,7 +29,7 @@ func C16(c *Ctx) {
 	r.Rule("C16/R1", "send(): lock success dominates seek/count/marshal/write; deferred unlock; Offset := countLines(dataFile) after Seek(0,0), before Marshal; one write", 8)
 	r.Rule("C16/R2", "append-only: single OpenFile with O_APPEND|O_CREATE; no truncating/rewriting call in the package; one JSON line per message", 4)
 	r.Rule("C16/R3", "all scanners over the data file share one maximum line size", 2)
-	r.Rule("C16/R4", "GetMessages skips exactly offset lines first, filters only by the ignore sets; Send is ordered and stops at the first error", 4)
+	r.Rule("C16/R4", "GetMessages skips exactly offset lines first, filters only by the ignore sets; Send is ordered and stops at the first error", 5)
 
 	send := c.Fn("C16/R1", pkgFS, "FileStorage", "send")
 	if send != nil {
@@ -395,6 +395,13 @@ func c16Read(c *Ctx) {
 				}
 				extra = append(extra, p+" at "+c.PosOf(cd.If))
 			}
+			// a skipped position is one line AS THE SCANNER DELIMITS IT: every skip step consumes exactly one Scan() of the
+			// (shared-limit) scanner. A skip loop that steps over "lines" by other means (Reader.ReadLine with a smaller
+			// buffer, byte counting) disagrees with the writer's count as soon as one line exceeds that other bound.
+			sc := scans[0].(ssa.Instruction)
+			perScan := !ssax.ReachableAvoiding(fn, dec, nil, []ssa.Instruction{sc}) && !ssax.ReachableFrom(fn, dec, dec, nil, []ssa.Instruction{sc})
+			r.Check(perScan, "C16/R4", "file_storage.GetMessages:skip-by-scanned-line", "each skipped position is one line taken by the scanner (the same delimiting as the writer's count)", c.PosOf(dec),
+				"the skip step is not preceded by its own Scanner.Scan(): skipped lines are delimited by other means than the lines that are counted and returned, so position k no longer means the k-th entry once the two delimitings differ (long lines)")
 			r.Check(len(extra) == 0, "C16/R4", "file_storage.GetMessages:skip-first", "the first `offset` lines are skipped by position, before any decoding or filtering", c.PosOf(dec),
 				"another condition decides before the positional skip: "+strings.Join(extra, "; ")+" — reading from offset k would no longer return exactly the entries from position k onward")
 		}
@@ -402,27 +409,28 @@ func c16Read(c *Ctx) {
 		var apps []ssa.Instruction
 		ssax.Instrs(fn, func(in ssa.Instruction) {
 			if call, ok := in.(*ssa.Call); ok {
-				if b, ok := call.Common().Value.(*ssa.Builtin); ok && b.Name() == "append" {
+				// (the append that builds the result list; a byte-slice append that copies the scanned line is not it)
+				if b, ok := call.Common().Value.(*ssa.Builtin); ok && b.Name() == "append" && strings.HasSuffix(call.Type().String(), "storage.Message") {
 					apps = append(apps, in)
 				}
 			}
 		})
 		if len(scans) == 1 && len(apps) == 1 {
 			var extra []string
-			nIgnore := 0
+			seenIgnore := map[string]bool{}
 			for _, cd := range ssax.CondsBetween(fn, scans[0], apps[0]) {
 				p := ssax.Path(cd.X)
 				switch {
 				case cd.Op == token.ILLEGAL && strings.Contains(p, ".Scan()"):
 				case cd.Op != token.ILLEGAL && strings.Contains(p, "offset") && !strings.Contains(p, "IgnoreList"):
 				case cd.Op != token.ILLEGAL && c16IsSkipTest(cd):
-				case strings.Contains(p, "IgnoreList["):
-					nIgnore++
+				case c16IgnoreLookup(cd.X, seenIgnore):
 				case strings.Contains(p, "json.Unmarshal("):
 				default:
 					extra = append(extra, p+" at "+c.PosOf(cd.If))
 				}
 			}
+			nIgnore := len(seenIgnore)
 			r.Check(len(extra) == 0 && nIgnore == 2, "C16/R4", "file_storage.GetMessages:filter", "an entry at or after the offset is dropped only if its id or offset is in an ignore list", c.PosOf(apps[0]),
 				sprintf("ignore tests=%d, other conditions: %s", nIgnore, strings.Join(extra, "; ")))
 		} else {
@@ -545,4 +553,47 @@ func freshDecodeTarget(c *Ctx, rule, key string, fn *ssa.Function) {
 	}
 	r.Check(ok, rule, key, "every line is decoded into a fresh value", c.Pos(fn.Pos()),
 		detail+": a field that a line omits keeps the value of the previous line of the same poll, so the entries returned depend on the batch boundaries")
+}
+
+
+// c16IgnoreLookup: the condition is a membership test of the decoded entry's ID or Offset in a set (`_, ok := m[x.ID]`),
+// or a boolean merge (a || b evaluated in a helper) all of whose non-constant alternatives are such tests. Records which
+// of the two fields were looked up. The maps are recognised by what they are asked, not by their names.
+func c16IgnoreLookup(v ssa.Value, seen map[string]bool) bool {
+	v = ssax.Resolve(v)
+	if ph, ok := v.(*ssa.Phi); ok {
+		n := 0
+		for _, e := range ph.Edges {
+			e = ssax.Resolve(e)
+			if _, isC := e.(*ssa.Const); isC {
+				continue
+			}
+			if !c16IgnoreLookup(e, seen) {
+				return false
+			}
+			n++
+		}
+		return n > 0
+	}
+	ex, ok := v.(*ssa.Extract)
+	if !ok || ex.Index != 1 {
+		return false
+	}
+	lk, ok := ex.Tuple.(*ssa.Lookup)
+	if !ok || !lk.CommaOk {
+		return false
+	}
+	p := ssax.Path(lk.Index)
+	if !strings.Contains(p, "json(") {
+		return false
+	}
+	switch {
+	case strings.HasSuffix(p, ".ID"):
+		seen["ID"] = true
+	case strings.HasSuffix(p, ".Offset"):
+		seen["Offset"] = true
+	default:
+		return false
+	}
+	return true
 }
